@@ -117,7 +117,9 @@ def run(args):
             print(json.dumps(r)[:2000])
             continue
         case = {"text": t, "ast": json.dumps(parts)}
-        if "panic" in r or "exit" in r or "timeout" in r:
+        if "timeout" in r:
+            oc = "slow"                  # no answer within the pool's limit (load): termination is C10's business
+        elif "panic" in r or "exit" in r:
             oc = "crash"
         elif r.get("err") != "NO_ERROR_DURING_PARSING":
             oc = "rejected:" + str(r.get("err"))
@@ -127,7 +129,7 @@ def run(args):
             oc = "ok" if got == exp else "differs"
         dist["outcome"][oc] = dist["outcome"].get(oc, 0) + 1
         nontrivial += 1
-        if oc == "ok":
+        if oc in ("ok", "slow"):
             continue
         if pairs_in_nested_with_sibling_combination(parts):
             V.violation("pairs:in-nested-statement-with-sibling-combination:" + ("rejected" if oc.startswith("rejected") else oc), case, observed={"outcome": oc},
